@@ -21,7 +21,9 @@ RULE = ("user names / passwords drawn from: ASCII, quotes (single, double), back
         "Unicode (Cyrillic, CJK, emoji), '#', '=', ':'; each written as TOML basic string (with escapes), literal string, multi-line basic or "
         "multi-line literal where the value allows, with varied whitespace/comments; malformed tables (missing key, integer value, empty "
         "string); probes = base64(u:p) of each pair plus near misses (raw text, trimmed, unquoted); settings: all combinations of "
-        "address class x port x reverse-proxy validity x protocol subsets x credentials; TLS hosts: every placement of a duplicated name over the four groups, unloadable certificate in each group, empty main group, random groups over a small name pool (case-differing names are distinct); non-trivial = value contains a character that "
+        "address class x port x reverse-proxy validity x protocol subsets x credentials; TLS hosts: every placement of a duplicated name over the four groups, unloadable certificate in each group, "
+        "a certificate file without a certificate (good key file) in each group, alternative SNIs shared by two main hosts or equal to a host name of any group, "
+        "empty main group, random groups and alternative SNIs over a small name pool (case-differing names are distinct); non-trivial = value contains a character that "
         "needs quoting/escaping; distinct = distinct file text")
 
 ALPH = ["a", "Z", "0", " ", "\"", "'", "\\", "#", "=", ":", "я", "漢", "😀", "\t", "é", ".", "-", "_", "%"]
@@ -184,12 +186,24 @@ def gen_cases(rng, ctx):
             out += [len(b)] + b
         return out
 
-    def hosts_case(groups, bad, kind):
+    def hosts_case(groups, bad, kind, alts=()):
+        """alts: (main host index, alternative SNI)*; bad: (group, index[, kind]) of the host whose files do not load"""
         names = [n for g in groups for n in g]
         dup = len(set(names)) != len(names)
-        l = line("c13_hosts", [list(bad)] + [enc(g) for g in groups])
+        # a name (host name or alternative SNI) that two different host entries claim designates no single entry
+        entries = [[n] + [a for h, a in alts if h == i] for i, n in enumerate(groups[0])] + [[n] for g in groups[1:] for n in g]
+        seen = {}
+        shared = [n for i, e in enumerate(entries) for n in e if seen.setdefault(n, i) != i]
+        own = any(len(set(e)) != len(e) for e in entries)
+        atok = []
+        for h, a in alts:
+            atok += [h, len(a.encode())] + list(a.encode())
+        l = line("c13_hosts", [list(bad)] + [enc(g) for g in groups] + ([atok] if alts else []))
+        refused = dup or bool(shared) or not groups[0] or bad[0] != 0
         cases.append(Case(l, l, kind=kind, nontrivial=True,
-                          meta={"groups": groups, "bad": list(bad), "expect_refused": dup or not groups[0] or bad[0] != 0}))
+                          meta={"groups": groups, "bad": list(bad), "alts": [list(a) for a in alts], "shared": shared[:1],
+                                # an alternative SNI repeated within its own entry designates that entry either way: left to the model comparison
+                                "expect_refused": None if (own and not refused) else refused}))
 
     # every placement of one duplicated name over the four groups (10 unordered pairs), on top of a valid base
     for g1 in range(4):
@@ -205,6 +219,21 @@ def gen_cases(rng, ctx):
     for g in range(4):
         groups = [["a.example", "b.example"], ["r.example"], ["p.example"], ["s.example"]]
         hosts_case(groups, (g + 1, 0), "hosts:unloadable-%d" % g)
+    # a certificate file that exists and holds no certificate (the key only) while the key file is good, in each group
+    for g in range(4):
+        groups = [["a.example", "b.example"], ["r.example"], ["p.example"], ["s.example"]]
+        hosts_case(groups, (g + 1, 0, 1), "hosts:certificate-file-without-certificate-%d" % g)
+    # alternative SNIs: claimed by two main hosts; equal to a host name of each group (before and after the claiming host)
+    base = [["a.example", "b.example"], ["r.example"], ["p.example"], ["s.example"]]
+    hosts_case(base, (0, 0), "hosts:alternative-sni", alts=[(0, "x.example"), (1, "y.example"), (1, "z.example")])
+    hosts_case(base, (0, 0), "hosts:alternative-sni-shared", alts=[(0, "x.example"), (1, "x.example")])
+    hosts_case(base, (0, 0), "hosts:alternative-sni-shared", alts=[(0, "w.example"), (0, "x.example"), (1, "y.example"), (1, "x.example")])
+    for h in (0, 1):
+        for other in ("a.example", "b.example", "r.example", "p.example", "s.example"):
+            if other != base[0][h]:
+                hosts_case(base, (0, 0), "hosts:alternative-sni-is-a-host-name", alts=[(h, other)])
+    hosts_case(base, (0, 0), "hosts:alternative-sni-own-name", alts=[(0, "a.example")])
+    hosts_case(base, (0, 0), "hosts:alternative-sni-own-repeat", alts=[(1, "x.example"), (1, "x.example")])
     hosts_case([[], ["r.example"], [], []], (0, 0), "hosts:no-main")
     hosts_case([["a.example"], [], [], []], (0, 0), "hosts:minimal")
     for i in range(400 if thorough else 120):
@@ -219,8 +248,12 @@ def gen_cases(rng, ctx):
         if rng.chance(1, 8):
             g = rng.below(4)
             if groups[g]:
-                bad = (g + 1, rng.below(len(groups[g])))
-        hosts_case(groups, bad, "hosts:random")
+                bad = (g + 1, rng.below(len(groups[g])), rng.below(2))
+        alts = []
+        if groups[0] and rng.chance(1, 2):
+            for _ in range(rng.range(1, 3)):
+                alts.append((rng.below(len(groups[0])), rng.choice(NAMES + ["alt.example", "alt2.example"])))
+        hosts_case(groups, bad, "hosts:random", alts=alts)
     return cases
 
 
@@ -240,8 +273,10 @@ def judge(case, impl, model, spec, ctx):
         what = "the endpoint binary started on the credentials file %r" % case.meta["text"]
         if s1 != 200:
             return [("violation", "%s: the configured pair (%r, %r) is answered %d" % (what, case.meta["u"], case.meta["p"], s1))]
-        if (s2, s3, s4) != (407, 407, 407):
-            return [("violation", "%s: wrong password / swapped pair / no credentials answered %d / %d / %d instead of 407" % (what, s2, s3, s4))]
+        # (a user name equal to its password: the swapped pair is the configured pair)
+        swapped = 200 if case.meta["u"] == case.meta["p"] else 407
+        if (s2, s3, s4) != (407, swapped, 407):
+            return [("violation", "%s: wrong password / swapped pair / no credentials answered %d / %d / %d instead of 407 / %d / 407" % (what, s2, s3, s4, swapped))]
         return []
     if case.kind == "wizard-roundtrip":
         t = impl.split()
@@ -253,12 +288,15 @@ def judge(case, impl, model, spec, ctx):
         return out
     if case.kind.startswith("hosts:"):
         iv = untok(impl)
-        exp = 1 if case.meta["expect_refused"] else 0
-        what = "groups (main, reverse proxy, ping, speedtest) = %s, unloadable = %s" % (case.meta["groups"], case.meta["bad"])
-        if iv[0] != exp or iv[1] != exp:
-            out.append(("violation", "TLS hosts %s: builder refused = %d, Core::new refused = %d, expected %d (duplicate host names, "
+        er = case.meta["expect_refused"]
+        exp = 1 if er else 0
+        bad = case.meta["bad"]
+        what = "groups (main, reverse proxy, ping, speedtest) = %s, alternative SNIs (main host index, name) = %s, unloadable (group, index, kind: 1 = the certificate file holds the key only, the key file is good) = %s" % (
+            case.meta["groups"], case.meta.get("alts", []), bad)
+        if er is not None and (iv[0] != exp or iv[1] != exp):
+            out.append(("violation", "TLS hosts %s: builder refused = %d, Core::new refused = %d, expected %d (duplicate host names%s, "
                                      "an empty main group or an unloadable certificate must be refused, anything else accepted)"
-                        % (what, iv[0], iv[1], exp)))
+                        % (what, iv[0], iv[1], exp, (" - here %r is claimed by two host entries" % case.meta["shared"][0]) if case.meta.get("shared") else "")))
         elif model is not None and impl != model:
             out.append(("disagree", "TLS hosts validation differs from the model: %s vs %s" % (impl, model)))
         return out
